@@ -281,8 +281,13 @@ func CorpusC04() []*Program {
 			Writers:  []Writer{{Label: "W1", Ops: ops("add:19:1019 add:3:1003")}, {Label: "W2", Ops: ops("add:8:2008 add:9:2009 add:27:2027")}},
 			Schedule: []string{"W2#9", "W2#1", "W2#5", "W1", "W1#8", "W1", "W1#8", "W2#3", "W1", "W1", "W2#14", "W1#12", "W1#12", "W2#8", "W1"}},
 	}
+	// the refetch-and-merge replay dereferences a nil node in btree.getCurrentItem: the committing process dies
+	ps = append(ps, &Program{Store: u4, HashMod: 2, MaxTimeMs: 25000, Note: "known:merge-nil-deref",
+		Init:     kvs(20, 50, 70, 60, 40, 80, 30, 10),
+		Writers:  []Writer{{Label: "W1", Ops: ops("update:20:1020 upsert:30:1030")}, {Label: "W2", Ops: ops("add:7:2007 updkey:10:2010 addne:40:2040")}},
+		Schedule: []string{"W1*", "W2*"}})
 	// remove-then-add: the outcome depends on Go's map iteration order; a few attempts make a hit very likely
-	for i := 0; i < 10; i++ {
+	for i := 0; i < 32; i++ {
 		ps = append(ps, two("known:merge-remove-then-add", u4, kvs(10, 20, 30), "add:40:40", "remove:10 add:10:99", seq...))
 	}
 	return ps
